@@ -223,7 +223,31 @@ def check(ctx):
                 ctx.require(R2, got == (a == o), "%s:%s" % (eb.file, eb.line), "configured %s vs offered %s -> %s" % (a, o, got), ["Challenge::eq", a, o])
     # the comparison in request_certificate uses the configured identifier's challenge
     sel = [c for c in b.calls if c.res and c.res.startswith("<" + CH + " as core::cmp::PartialEq<" + SC)]
-    ctx.floor(R2, "challenge selection comparison in request_certificate", len(sel), 1)
+    # the same selection written as an iterator filter: `challenges.iter().filter(|c| configured == **c)` — the comparison sits in the
+    # predicate closure, the hooks run inside the loop over the filtered iterator
+    sel_clos = []
+    if not sel:
+        from .guards import body_family
+        from ..flow import closure_captures_of
+        for fb in body_family(prog, b.key)[1:]:
+            for c in fb.calls:
+                if c.res and c.res.startswith("<" + CH + " as core::cmp::PartialEq<" + SC) and fb.kind == "Closure" and fb.local_ty(0) == "bool":
+                    sel_clos.append((fb, c))
+    ctx.floor(R2, "challenge selection comparison in request_certificate", len(sel) + len(sel_clos), 1)
+    for fb, c in sel_clos:
+        caps, cst = closure_captures_of(b, fb.key)
+        srcs = [origins(b, o) for o in (caps or [])]
+        inner = arg_origins(c, 0)
+        ctx.require(R2, any(any(x.is_(CERT + "::get_identifier_from_str") for x in sl.calls) and (("acmed::identifier::Identifier", "challenge") in sl.fields or
+                                                                                               (("acmed::identifier::Identifier", "challenge") in inner.fields and inner.has_leaf("upvar:"))) for sl in srcs), c.where(),
+                    "the challenge compared is the configured identifier's", [RC, "selection-source"])
+        # the predicate is what the loop around the hooks iterates over: every hook call sits in a loop whose iterator went through
+        # filter(<this predicate>) (or find / skip_while+take_while are NOT accepted: only `filter` keeps exactly the matching offers)
+        for h in hooks:
+            scc = b.scc_of(h.bb)
+            nxs = [x for x in b.calls_to("core::iter::traits::iterator::Iterator::next") if scc and x.bb in set(scc)]
+            gated = any(("closure:" + fb.key) in arg_origins(x, 0).leaves and arg_origins(x, 0).via_any("core::iter::traits::iterator::Iterator::filter") for x in nxs)
+            ctx.require(R2, gated, h.where(), "hooks run only for the offered challenge that equals the configured one (loop over `filter(configured == offered)`)", [RC, "selection-gate"])
     for c in sel:
         a0 = arg_origins(c, 0)
         ctx.require(R2, any(x.is_(CERT + "::get_identifier_from_str") for x in a0.calls) and ("acmed::identifier::Identifier", "challenge") in a0.fields, c.where(),
